@@ -19,6 +19,20 @@ MUTANTS = [
      'appendStmt(code, generateMergeRelations(rel, deltaRelation, newRelation));', 'R2'),
     ('delete-pass-always-current', S.UT, '(version >= 1) ? SubsumeDeleteCurrentCurrent : SubsumeDeleteCurrentDelta', '(version >= 0) ? SubsumeDeleteCurrentCurrent : SubsumeDeleteCurrentDelta', 'R2'),
     ('no-distinct-for-reject-new-new', S.CT, 'if (mode == SubsumeRejectNewNew || mode == SubsumeDeleteCurrentCurrent) {', 'if (mode == SubsumeDeleteCurrentCurrent) {', 'R2'),
+    ('nonrecursive-delete-skipped-without-plain-rules', S.UT, '''    if (!context->hasSubsumptiveClause(rel.getQualifiedName())) {
+        return mk<ram::Sequence>(std::move(code));
+    }
+
+    std::string mainRelation = getConcreteRelationName(rel.getQualifiedName());
+    std::string deleteRelation = getDeleteRelationName(rel.getQualifiedName());''', '''    if (!context->hasSubsumptiveClause(rel.getQualifiedName())) {
+        return mk<ram::Sequence>(std::move(code));
+    }
+    if (context->getProgram()->getClauses(rel).size() < 2) {
+        return mk<ram::Sequence>(std::move(code));
+    }
+
+    std::string mainRelation = getConcreteRelationName(rel.getQualifiedName());
+    std::string deleteRelation = getDeleteRelationName(rel.getQualifiedName());''', 'R2'),
     ('erase-may-be-parallel', 'src/ram/transform/Parallel.cpp', '        if (visitExists(query, [&](const Erase&) { return true; })) return;\n', '', 'C03R1'),
 ]
 
@@ -46,7 +60,7 @@ def run(tier='quick'):
     try:
         analyse(rep)
         ms = [mutate.Mutant(n, f, o, w, e) for (n, f, o, w, e) in MUTANTS]
-        mutate.run_mutants(rep, 'C11', ms if tier == 'thorough' else ms[:2], analyse)
+        mutate.run_mutants(rep, 'C11', ms if tier == 'thorough' else ms[:2] + [m for m in ms if m.name == 'nonrecursive-delete-skipped-without-plain-rules'], analyse)
     except facts.Broken as e:
         rep.analysis_broken(str(e))
     rep.exhaustive = True
